@@ -157,6 +157,20 @@ class State:
     def atom(self, key):
         if key in self.used:
             return self.used[key]
+        # a little arithmetic: `k < len(X)` is monotone in k, so atoms already decided on this path may
+        # decide this one (keeps infeasible combinations like 2 < len(X) false, 3 < len(X) true out of the table)
+        m = _LEN_BOUND.match(key)
+        if m:
+            k = int(m.group(1))
+            what = m.group(2)
+            for other, val in self.used.items():
+                mo = _LEN_BOUND.match(other)
+                if mo and mo.group(2) == what:
+                    j = int(mo.group(1))
+                    if val and k <= j:
+                        return True
+                    if not val and k >= j:
+                        return False
         if key not in self.assign:
             raise _NeedAtom(key)
         self.used[key] = self.assign[key]
@@ -176,6 +190,9 @@ class State:
         b = _base(text)
         v = self.version.get(b, 0)
         return text if not v else f"{text}@{v}"
+
+
+_LEN_BOUND = re.compile(r"(\d+) Lt (len\(.*\))$")
 
 
 def _base(text):
@@ -458,7 +475,7 @@ class Evaluator:
         i = 0
         broke = False
         while True:
-            if i >= k + 1:
+            if i >= k + getattr(self.hooks, 'while_extra', 1):
                 st.effect("loop-bound", u(s.test))
                 break
             if not self.truth(s.test, st):
